@@ -1,8 +1,9 @@
-"""C14 — decided by the shared IRC-layer engine (checks/irc_common.py)."""
-from checks import irc_common
+"""C14 — decided by the shared IRC-layer engine (checks/irc_common.py) on the bare state machine and by the
+HTTP-level stage (checks/irc_http.py) on a complete single-node network: the state invariants evaluated on the live server of a complete node after every entry."""
+from checks import irc_http
 
 LEVEL = "model_checking"
 
 
 def run(ctx):
-    irc_common.report(ctx, "C14")
+    irc_http.run_check(ctx, "C14")
